@@ -22,18 +22,22 @@ package main
 // A JSON output file is opened so that it can be truncated and written.
 //@ func OpenFile [C18]
 //@   nopanic none
-//@   ensures writable: result != nil && result.writable && result.name == filename
+//@   modifies fs
+//@   ensures writable: result != nil && fresh(result) && result.writable && result.name == filename && fs == old(fs)
 //@ func Truncate [C18]
 //@   requires f != nil && f.writable
 //@   nopanic
-//@   modifies f.data, f.pos
-//@   ensures f.data == "" && f.pos == 0
+//@   modifies fs, f.pos
+//@   ensures fs == store(old(fs), f.name, "") && f.pos == 0
 
 // Validation comes before anything that can touch a file: when the library is run the flag
 // combination is valid, and it is run with the stored mode and the -filenames flag.
 //@ func main [C18]
 //@   nopanic none
 //@   modifies *
+//@   atcall GetFileList compiled: compError == nil
 //@   atcall RunFiles valid: (len(search_files_glob) != 0 || debug) && ((len(source) != 0) != (len(command) != 0)) && !(out_json && out_fjson)
 //@   atcall RunFiles args: arg2 == replaceModeArg && arg3 == process_filenames
+//@   ensures jsonfile: defined(results) && defined(json_file) && !no_output && len(results) != 0 && len(json_file) != 0 && json_file != fjson_file ==> select(fs, json_file) == jsonOf(box(engine.Matches, results))
+//@   ensures fjsonfile: defined(results) && defined(fjson_file) && !no_output && len(results) != 0 && len(fjson_file) != 0 ==> select(fs, fjson_file) == jsonIndentOf(box(engine.Matches, results), "", "\t")
 //@   atcall WriteString file: (arg0.name == json_file && arg1 == jsonOf(box(engine.Matches, results))) || (arg0.name == fjson_file && arg1 == jsonIndentOf(box(engine.Matches, results), "", "\t"))
